@@ -103,21 +103,24 @@ func (p *pending) head() string {
 
 // blockedOrDone decides, from the goroutine's wait reason in the runtime's stack dump (not from a
 // timeout), whether the write has finished or is waiting for the resource's lock.
-func (p *pending) blockedOrDone() string {
+func (p *pending) blockedOrDone() string { return blockedOrDone(p.goid, p.done) }
+
+// blockedOrDone: has the goroutine finished (done closed) or is it waiting for a lock?
+func blockedOrDone(goid int64, done <-chan struct{}) string {
 	deadline := time.Now().Add(2 * waitBound)
 	stable := 0
 	for {
 		select {
-		case <-p.done:
+		case <-done:
 			return "done"
 		default:
 		}
-		st := goroutineState(p.goid)
+		st := goroutineState(goid)
 		if st == "sync.RWMutex.Lock" || st == "sync.RWMutex.RLock" || st == "sync.Mutex.Lock" || st == "semacquire" {
 			stable++
 			if stable >= 3 {
 				select {
-				case <-p.done:
+				case <-done:
 					return "done"
 				default:
 				}
@@ -189,9 +192,12 @@ func (r *real) openParked(sub Op) (sb *realSub, ready chan struct{}) {
 	ctx, cancel := context.WithCancel(context.Background())
 	sb = &realSub{name: name, cancel: cancel, notify: make(chan struct{}, 1), done: make(chan struct{})}
 	ready = make(chan struct{})
+	started := make(chan struct{})
 	rs := append(readOptions(sub), resource.WithBackpressure(true))
 	go func() {
 		defer close(sb.done)
+		sb.goid = verifhook.GoID()
+		close(started)
 		if r.val != nil {
 			ch := r.val.Pull(ctx, rs...)
 			close(ready)
@@ -206,6 +212,7 @@ func (r *real) openParked(sub Op) (sb *realSub, ready chan struct{}) {
 			}
 		}
 	}()
+	<-started
 	return
 }
 
@@ -302,4 +309,52 @@ func (r *real) raceB(o Op) string {
 	oldDeliv := r.deliveries(p.sends())
 	seed := r.subscribe(sub)
 	return fmt.Sprintf("parked=false %s %s | %s", seed, p.head(), joinDeliv(oldDeliv, name))
+}
+
+// raceC: the write is parked inside Bus.Send, right after it took its snapshot of the listeners, while
+// the subscriber opens. The new listener is not in the snapshot: nothing of this write is delivered to
+// it (its seed has the write), but it must still be registered when that Send has finished - also when
+// the Send met a cancelled listener and garbage-collected. A Delete publishes while holding the
+// resource lock: a subscriber that needs a seed waits for it (blocked, decided from the goroutine's
+// wait reason) and registers right after.
+func (r *real) raceC(o Op) string {
+	w, sub := splitRace(o)
+	name, _ := sub.opt("name")
+	armedPoint.Store("bus.send.afterSnapshot")
+	p := r.startWrite(w)
+	parked := false
+	select {
+	case <-parkedCh:
+		parked = true
+	case <-p.done:
+		armedPoint.Store("")
+	case <-time.After(2 * waitBound):
+		armedPoint.Store("")
+		return "!write-timeout"
+	}
+	if !parked {
+		oldDeliv := r.deliveries(p.sends())
+		seed := r.subscribe(sub)
+		return fmt.Sprintf("parked=false blocked=false %s %s | %s", seed, p.head(), joinDeliv(oldDeliv, name))
+	}
+	sb, ready := r.openParked(sub) // nothing is armed any more: it does not park
+	st := blockedOrDone(sb.goid, ready)
+	if strings.HasPrefix(st, "stuck") {
+		releaseCh <- struct{}{}
+		return "!subscriber-" + st
+	}
+	releaseCh <- struct{}{}
+	if !p.wait() {
+		return "!write-timeout"
+	}
+	oldDeliv := r.deliveries(p.sends())
+	select {
+	case <-ready:
+	case <-time.After(waitBound):
+		return "!subscriber-did-not-return"
+	}
+	nSeed := r.seedCount(sub)
+	r.register(sb)
+	seed := showList(sb.take(nSeed))
+	return fmt.Sprintf("parked=true blocked=%v seed=%s %s | %s", st == "blocked", seed, p.head(), joinDeliv(oldDeliv, name))
 }
